@@ -40,6 +40,7 @@ def parseAction (ws : List String) : Option Action :=
   | ["has", ty] => some (.has (nat! ty))
   | ["count", ty] => some (.count (nat! ty))
   | ["drain"] => some .drain
+  | ["wait"] => some .drain        -- `Wait` after the parked goroutines ran: returns at once (the harness times it)
   | ["readlog"] => some .readLog
   | _ => none
 
